@@ -55,6 +55,7 @@ type rw struct {
 	// race instrumentation plan (filled by planRace before the rewrite)
 	selPlan map[*ast.SelectorExpr]*accPlan
 	idPlan  map[*ast.Ident]*accPlan
+	idxPlan map[*ast.IndexExpr]*accPlan
 	mapPlan map[ast.Expr]*accPlan // map-typed operand expressions of index/delete/len/range
 }
 
@@ -739,6 +740,17 @@ func (r *rw) raceWrap(e ast.Expr) ast.Expr {
 			r.counts["race:var"]++
 			out = &ast.ParenExpr{X: &ast.StarExpr{X: call(r.vrt(fn), &ast.UnaryExpr{Op: token.AND, X: x}, strlit(p.name), p.site)}}
 		}
+	case *ast.IndexExpr:
+		// an element of a slice / addressable array (a buffer shared between goroutines)
+		if p := r.idxPlan[x]; p != nil {
+			delete(r.idxPlan, x)
+			fn := "R"
+			if p.write {
+				fn = "Wr"
+			}
+			r.counts["race:elem"]++
+			return &ast.ParenExpr{X: &ast.StarExpr{X: call(r.vrt(fn), &ast.UnaryExpr{Op: token.AND, X: x}, strlit(p.name), p.site)}}
+		}
 	}
 	if p := r.mapPlan[e]; p != nil {
 		delete(r.mapPlan, e)
@@ -826,6 +838,7 @@ func (r *rw) addressable(e ast.Expr) bool {
 func (r *rw) planRace(f *ast.File) {
 	r.selPlan = map[*ast.SelectorExpr]*accPlan{}
 	r.idPlan = map[*ast.Ident]*accPlan{}
+	r.idxPlan = map[*ast.IndexExpr]*accPlan{}
 	r.mapPlan = map[ast.Expr]*accPlan{}
 	writes := map[ast.Expr]bool{}
 	noInstr := map[ast.Expr]bool{}
@@ -954,6 +967,10 @@ func (r *rw) planRace(f *ast.File) {
 			if r.isMap(x.X) {
 				e := unparen(x.X)
 				r.mapPlan[e] = &accPlan{name: "map " + exprString(e), write: writes[e], site: r.site(x)}
+			} else if !noInstr[x] && r.addressable(x) {
+				if t := r.info.TypeOf(x); t != nil && !isSyncType(t) {
+					r.idxPlan[x] = &accPlan{name: "elem " + exprString(unparen(x.X)), write: writes[x], site: r.site(x)}
+				}
 			}
 		case *ast.CallExpr:
 			if len(x.Args) >= 1 && (r.isBuiltin(x.Fun, "len") || r.isBuiltin(x.Fun, "delete")) && r.isMap(x.Args[0]) {
